@@ -385,6 +385,16 @@ struct Holder<'gc> { slot: Slot<'gc>, n: u8 }
         "h: Gc<'gc, Holder<'gc>>", "h: Gc::new(mc, Holder { slot: RefLock::new(None), n: 0 })",
         body="        *unlock!(Gc::write(mc, root.h), Holder, slot).borrow_mut() = Some(child);",
         check="root.h.slot.borrow().is_some()", extra_items=holder_items), run=True)
+    # the client expression must not be evaluated inside the macro's own `unsafe` block: otherwise an
+    # unsafe fn (here `Write::assume`, forging a capability with no barrier) is callable from safe code
+    add("field-smuggled-unsafe-call", "field-macro", "attack", _black_parent(
+        "h: Gc<'gc, Holder<'gc>>", "h: Gc::new(mc, Holder { slot: RefLock::new(None), n: 0 })",
+        body="        *field!(Write::assume(root.h.as_ref()), Holder, slot).unlock().borrow_mut() = Some(child); // `Write::assume` is an unsafe fn, no `unsafe` here",
+        check="root.h.slot.borrow().is_some()", extra_items=holder_items), run=True)
+    add("unlock-macro-smuggled-unsafe-call", "field-macro", "attack", _black_parent(
+        "h: Gc<'gc, Holder<'gc>>", "h: Gc::new(mc, Holder { slot: RefLock::new(None), n: 0 })",
+        body="        *unlock!(Write::assume(root.h.as_ref()), Holder, slot).borrow_mut() = Some(child);",
+        check="root.h.slot.borrow().is_some()", extra_items=holder_items), run=True)
     add("field-through-gc-run", "field-macro", "attack", _black_parent(
         "h: Gc<'gc, Gc<'gc, Holder<'gc>>>", "h: { let inner = Gc::new(mc, Holder { slot: RefLock::new(None), n: 0 }); Gc::new(mc, inner) }",
         body="        *unlock!(Gc::write(mc, root.h), Holder, slot).borrow_mut() = Some(child); // barrier on the outer Gc only",
@@ -615,4 +625,134 @@ def hidden_brand_probes(collect):
         elif sk == "phantomData":
             # phantom-only: no value is stored, nothing can dangle — must stay accepted
             add("branded-phantom", "use", _hidden_prog("PhantomData<&'gc Seed>", "let _ = seed; PhantomData", "let _ = root", stored="false"))
+    return P
+
+
+# ------------------------------------------------------------------------------------------------
+# C12 / C16: the client-instantiated arms of the exported impl-generating macros
+# ------------------------------------------------------------------------------------------------
+TEMPLATE_PRELUDE = r'''#![allow(unused, dead_code)]
+use gc_arena::{Arena, Collect, Gc, GcWeak, RefLock, Rootable, static_collect, collect::{DynCollect, dyn_collect}};
+use std::cell::Cell;
+use std::rc::Rc;
+
+thread_local! { static DROPPED: Cell<bool> = Cell::new(false); }
+/// Lives in the arena (allocated with `Gc::new_static`); its destructor is observable.
+struct Tracked { value: u64 }
+impl Drop for Tracked { fn drop(&mut self) { self.value = 0xDEAD; DROPPED.with(|d| d.set(true)); } }
+'''
+
+
+def _latch_prog(decl, invoke, root_ty, mk_root, park, still):
+    return TEMPLATE_PRELUDE + f'''
+{decl}
+{invoke}
+
+fn main() {{
+    let mut arena = Arena::<Rootable![{root_ty}]>::new(|_| {mk_root});
+    // callback #1 produces a `&'gc Tracked` (Gc::as_ref) and parks it in the root
+    arena.mutate(|mc, root| {{
+        let gc = Gc::new_static(mc, Tracked {{ value: 42 }});
+        let r: &Tracked = gc.as_ref();
+        {park}
+    }});
+    // the root claims NEEDS_TRACE = false: the collector cannot see the referent
+    arena.finish_cycle();
+    // callback #2 finds the reference of callback #1 again (it is NOT dereferenced for the verdict)
+    let still_held = arena.mutate(|_, root| {still});
+    let dropped = DROPPED.with(|d| d.get());
+    if still_held && dropped {{
+        println!("RESULT unsafe: a `&'gc Tracked` produced in callback #1 is still held in the root in callback #2 and its referent's destructor has run");
+    }} else {{
+        println!("RESULT safe: held={{still_held}} dropped={{dropped}}");
+    }}
+}}
+'''
+
+
+DYN_PROG = TEMPLATE_PRELUDE + r'''
+/// Observable through the `Rc` strong count.
+#[derive(Collect)]
+#[collect(require_static)]
+struct Counted(Rc<()>);
+
+{trait_decl}
+{invoke}
+
+#[derive(Collect)]
+#[collect(no_drop)]
+struct Leaf<'gc> { strong: Gc<'gc, Counted>, weak: GcWeak<'gc, Counted> }
+{trait_impl}
+
+#[derive(Collect)]
+#[collect(no_drop)]
+struct Root<'gc> {
+    boxed: Box<{dyn_ty}>,
+    shared: Rc<{dyn_ty}>,
+    nested: Gc<'gc, RefLock<Vec<Option<(u8, Rc<{dyn_ty}>)>>>>,
+}
+
+fn main() {
+    let counters: Vec<(Rc<()>, Rc<()>)> = (0..3).map(|_| (Rc::new(()), Rc::new(()))).collect();
+    let mut arena = Arena::<Rootable![Root<'_>]>::new(|mc| {
+        let leaf = |k: usize| Leaf {
+            strong: Gc::new(mc, Counted(counters[k].0.clone())),
+            weak: Gc::downgrade(Gc::new(mc, Counted(counters[k].1.clone()))),
+        };
+        Root {
+            boxed: Box::new(leaf(0)),
+            shared: Rc::new(leaf(1)),
+            nested: Gc::new(mc, RefLock::new(vec![None, Some((7, Rc::new(leaf(2)) as Rc<{dyn_anon}>))])),
+        }
+    });
+    arena.finish_cycle();
+    arena.finish_cycle();
+    // strong children are reachable through the trait objects: they must be alive (count 2);
+    // weak targets are only weakly reachable: destructed (count 1) but kept as shells, so the arena
+    // still counts 3 strong children + 3 shells + the `nested` allocation
+    let strong_alive: Vec<bool> = counters.iter().map(|c| Rc::strong_count(&c.0) == 2).collect();
+    let weak_destructed: Vec<bool> = counters.iter().map(|c| Rc::strong_count(&c.1) == 1).collect();
+    let allocations = arena.metrics().total_gc_count();
+    if strong_alive.iter().all(|b| *b) && weak_destructed.iter().all(|b| *b) && allocations == 7 {
+        println!("RESULT safe: strong children alive {strong_alive:?}, weak targets destructed {weak_destructed:?} and kept as shells, {allocations} allocations");
+    } else {
+        println!("RESULT unsafe: children owned by the trait objects (Box / Rc / Gc<RefLock<Vec<Option<(u8, Rc<dyn>)>>>>) were not traced: strong alive {strong_alive:?} (must all be true), weak destructed {weak_destructed:?}, {allocations} allocations (must be 7: GcWeak targets reported weak stay as shells)");
+    }
+}
+'''
+
+
+def template_probes(mi):
+    """Probes for the rows of Generated/MacroImpls (one group per macro arm that exists)."""
+    P = []
+    have = {(r["macro"], r["arm"]) for r in mi["rows"]}
+
+    def add(name, prop, macro, arm, role, src):
+        if (macro, arm) in have:
+            P.append(dict(name=name, prop=prop, entry=f"template: {macro} arm {arm}", role=role, run=True, key=None, src=src, externs=[]))
+    # ---- static_collect! (C12): a branded type must not become Collect<'gc> for every brand --------
+    add("c12-template-static-collect-generic-latch", "C12", "static_collect", 0, "attack", _latch_prog(
+        "/// interior mutability + a *branded* reference: must never be storable in a root\nstruct Latch<'gc, T>(Cell<Option<&'gc T>>);",
+        "static_collect!(<T> Latch<'gc, T>); // the documented generic form; the type names the macro's own 'gc",
+        "Latch<'_, Tracked>", "Latch(Cell::new(None))", "root.0.set(Some(r));", "root.0.get().is_some()"))
+    add("c12-template-static-collect-plain-latch", "C12", "static_collect", 1, "attack", _latch_prog(
+        "struct Latch1<'a>(Cell<Option<&'a Tracked>>);",
+        "static_collect!(Latch1<'gc>); // plain form; the type names the macro's own 'gc",
+        "Latch1<'_>", "Latch1(Cell::new(None))", "root.0.set(Some(r));", "root.0.get().is_some()"))
+    add("c12-template-static-collect-generic-static-use", "C12", "static_collect", 0, "use", _latch_prog(
+        "struct Plain<T>(Cell<Option<T>>);",
+        "static_collect!(<T> Plain<T>); // a 'static instantiation: legitimate",
+        "Plain<u64>", "Plain(Cell::new(None))", "root.0.set(Some(r.value));", "false"))
+    # ---- dyn_collect! (C16): trait objects in provided containers must be traced ---------------------
+    gen = dict(trait_decl="trait Node<'gc, T>: 'gc + DynCollect<'gc> where T: Clone { fn tag(&self) -> Option<T> { None } }",
+               invoke="dyn_collect!(<T> dyn Node<'gc, T> where T: Clone); // the generic arm",
+               trait_impl="impl<'gc> Node<'gc, u32> for Leaf<'gc> {}", dyn_ty="dyn Node<'gc, u32> + 'gc", dyn_anon="dyn Node<'_, u32> + '_")
+    plain = dict(trait_decl="trait Node<'gc>: 'gc + DynCollect<'gc> { fn tag(&self) -> u8 { 0 } }",
+                 invoke="dyn_collect!(dyn Node<'gc>); // the plain arm",
+                 trait_impl="impl<'gc> Node<'gc> for Leaf<'gc> {}", dyn_ty="dyn Node<'gc> + 'gc", dyn_anon="dyn Node<'_> + '_")
+    for nm, arm, d in (("generic", 0, gen), ("plain", 1, plain)):
+        src = DYN_PROG
+        for k, v in d.items():
+            src = src.replace("{" + k + "}", v)
+        add(f"c16-template-dyn-collect-{nm}-containers", "C16", "__dyn_collect", arm, "use", src)
     return P
